@@ -389,7 +389,7 @@ class GaussianMerge(Compiler):
         E.X  BS | q[0],q[1] has successors Vgate | q[1] & S2gate q[0],q[1] in this case the S2gate is removed.
         """
         op_qumodes = get_qumodes_operated_upon(op)
-        for gaussian_op in merged_gaussian_ops:
+        for gaussian_op in list(merged_gaussian_ops):
             if any(
                 qumode in op_qumodes for qumode in self.non_gaussian_qumodes_dependecy(gaussian_op)
             ):
